@@ -32,11 +32,12 @@ Section Run.
         let fr := fired vld getter_c fac_value mdef_value adapt_value pl a o in
         let skip := match pl with FaultCall _ _ => fr | _ => false end in
         let '(tw', outt, lgt) := if skip then (tw, Ok, []) else stp NoFault tw o in
-        (o, pl, fr, mkObs out a' lg, mkObs outt tw' lgt) :: run2 a' tw' r
+        (o, pl, fr, mkObs out a' lg 0, mkObs outt tw' lgt 0) :: run2 a' tw' r
     end.
 End Run.
 
-Definition case := (st * list hstep)%type.
+(* initial state, initial registration digest, history *)
+Definition case := (st * Z * list hstep)%type.
 
 Definition dict_equiv (a b : list (Z * Z)) : bool :=
   forallb (fun kv => opt_eqb Z.eqb (dlookup (fst kv) b) (Some (snd kv))) a
@@ -49,8 +50,8 @@ Definition st_equiv (a b : st) : bool :=
   && opt_eqb Z.eqb (f a) (f b) && opt_eqb Z.eqb (m a) (m b) && Z.eqb (p a) (p b)
   && opt_eqb Z.eqb (c a) (c b) && Z.eqb (ad a) (ad b).
 
-(* codes: 100*step + 1 outcome, 2 state of the faulted object, 3 handler log, 4 fired flag, 5 twin state *)
-Fixpoint corr_hist (i : Z) (a tw : st) (h : list hstep) : list Z :=
+(* codes: 100*step + 1 outcome, 2 state of the faulted object, 3 handler log, 4 fired flag, 5 twin state, 6 registrations *)
+Fixpoint corr_hist (reg0 : Z) (i : Z) (a tw : st) (h : list hstep) : list Z :=
   match h with
   | [] => []
   | (o, pl, fr, oa, ot) :: r =>
@@ -63,9 +64,10 @@ Fixpoint corr_hist (i : Z) (a tw : st) (h : list hstep) : list Z :=
            ++ chk 2 (st_equiv a' (o_st oa))
            ++ chk 3 (log_eqb lg (o_log oa))
            ++ chk 4 (Bool.eqb mfr fr)
-           ++ chk 5 (st_equiv tw' (o_st ot)))
-      ++ corr_hist (i + 1) (o_st oa) (o_st ot) r
+           ++ chk 5 (st_equiv tw' (o_st ot))
+           ++ chk 6 (Z.eqb (o_reg oa) reg0 && Z.eqb (o_reg ot) reg0))   (* no operation of the model registers or removes a handler *)
+      ++ corr_hist reg0 (i + 1) (o_st oa) (o_st ot) r
   end.
 
-Definition corr_codes (cs : case) : list Z := let '(init, h) := cs in corr_hist 0 init init h.
-Definition law_codes (cs : case) : list Z := let '(init, h) := cs in law_hist 0 init h.
+Definition corr_codes (cs : case) : list Z := let '(init, reg0, h) := cs in corr_hist reg0 0 init init h.
+Definition law_codes (cs : case) : list Z := let '(init, _, h) := cs in law_hist 0 init h.
